@@ -29,8 +29,8 @@ MANIFEST = {
             "remaining scratch) and advances past every slot on all paths, and that the writer flavors call exactly write_all per "
             "block and flush at finalize with errors mapped to SerializeBufferFull; std and embedded-io adapters agree.",
     "note": "Trusted: read_exact / write_all contracts of std::io and embedded-io (how a particular Read/Write chunks data is theirs). "
-            "Quick tier analyses std + embedded-io 0.6; thorough adds embedded-io 0.4.",
-    "technique": "static analysis: canonical per-path summaries + who-may-call over resolved callees + linear guard exactness on raw-pointer cursor",
+            "Both tiers analyse std + embedded-io 0.6 (configuration A) and embedded-io 0.4 (configuration B).",
+    "technique": "static analysis: semantic MIR summaries vs specifications (embedded-io 0.6 and 0.4 configurations) + who-may-call over resolved callees + hand-written scratch-buffer specification",
 }
 
 
